@@ -213,6 +213,17 @@ def run(prog, rep):
                 rep.ok("early-rejections", f"{fq}: `{norm(head(rev.stmt))[:80]}` ({why}) precedes every effect", nontrivial=True)
         if not any(rid in reach_from_effect for rid in rej):
             rep.ok("validate-before-effect", f"{fq}: no path from an effect ({len(eff)} sites) to a refusal ({len(rej)} sites)", nontrivial=bool(eff))
+        # scratch buffers used for pre-serialisation must be created in this call
+        for c in walk_no_nested(ff.f.node):
+            if isinstance(c, ast.Call) and isinstance(c.func, ast.Attribute) and c.func.attr in ("_write", "bwrite") and c.args and isinstance(c.func.value, ast.Name) \
+                    and c.func.value.id in taint and not ct.is_handle(c.args[0]):
+                b = c.args[0]
+                fresh_local = isinstance(b, ast.Name) and b.id in ff.buffers
+                inline_new = isinstance(b, ast.Call) and norm(b.func) in ("BytesIO", "io.BytesIO")
+                if fresh_local or inline_new:
+                    rep.ok("scratch-buffer-fresh", f"{fq}: `{norm(c)[:60]}` serialises into a buffer created in this call")
+                else:
+                    rep.fail("scratch-buffer-fresh", mod, fq, c, f"request-derived data is serialised into `{norm(b)}`, which outlives this call: after a refused request its partial bytes stay in the buffer and are written by the next request")
         # tainted serialiser straight on the handle
         for e in ff.ev("entry_write", "block_write"):
             recv = e.entry if e.kind == "entry_write" else e.obj
